@@ -70,6 +70,10 @@ def convert_type(t, names, pending):
 
 
 def convert_mh(mh):
+    if isinstance(mh, type):
+        # a CLASS given as refinement (tests/core/usable_grammar_test: Annotated[D, NoOp]): fine for grammar analysis, which is all
+        # that test does, but not a usable refinement -- such hierarchies are left out of the synthesis strata
+        return ["Opaque", "class:" + mh.__name__]
     n = type(mh).__name__
     if n == "IntRange":
         return ["IntRange", mh.min, mh.max]
